@@ -1,4 +1,5 @@
 import Corerad.Spec.C12
+import Corerad.Spec.C03
 import Driver.Config
 namespace Driver.C12
 open Corerad Corerad.Model
@@ -43,8 +44,17 @@ def vr (c impl : List String) : Option Verdict := do
      (!(pickRDNSS a.options).isEmpty && !(pickRDNSS b.options).isEmpty) ||
      (!(pickDNSSL a.options).isEmpty && !(pickDNSSL b.options).isEmpty) ||
      (firstPortal a.options).isSome && (firstPortal b.options).isSome)
+  -- "an RA equal to CoreRAD's own produces no report": when the received RA is the own RA (as it
+  -- is, or as it reads after a wire round trip) nothing may be reported. The pairwise comparison
+  -- of the source reports an own RA that repeats a prefix or route with different lifetimes
+  -- against itself (finding F-21, the configuration class of F-14).
+  let twin := b == a || b == Spec.C03.truncateRA a
+  let selfInc := twin && !Spec.C12.coherent a && (!reported.isEmpty || hook)
   pure { model := s!"{boolTok (!ps.isEmpty)} {canon ps}",
-         oracle := Spec.C12.holds a b reported hook,
-         nontrivial := shares }
+         oracle := !selfInc && Spec.C12.holds a b reported hook,
+         nontrivial := shares,
+         note := if selfInc then
+           "class=self-inconsistent-own-ra the received RA equals the own RA, which carries the same prefix (or route) twice with different lifetimes: each copy is reported against the other although the two RAs are identical"
+         else "" }
 
 end Driver.C12
